@@ -21,4 +21,5 @@ Bij    == KeysBijective(net, sliced)
 Tiles  == ChunksTile(net, sliced)
 Canon  == IsCanonN(net, sliced)
 Counts == NSlices(net, sliced) = Mult(net, sliced)
+Ranks  == \A nproc \in 1..6 : RanksPartition(NSlices(net, sliced), nproc)
 =============================================================================
